@@ -44,6 +44,7 @@ type Extractor struct {
 	resolver        func(core.IndirectRef) (core.Object, error) // Reference resolver
 	xobjectDepth    int                                         // Current XObject nesting depth
 	maxXObjectDepth int                                         // Maximum nesting depth (prevents infinite recursion)
+	xobjectCalls    int                                         // Form XObjects invoked during the current Extract
 }
 
 // NewExtractor creates a new text extractor with initialized graphics state.
@@ -173,6 +174,7 @@ func resolveIfRef(obj core.Object, resolver func(core.IndirectRef) (core.Object,
 // Extract extracts text fragments from parsed content stream operations.
 func (e *Extractor) Extract(operations []contentstream.Operation) ([]TextFragment, error) {
 	e.fragments = make([]TextFragment, 0)
+	e.xobjectCalls = 0
 
 	for i, op := range operations {
 		if err := e.processOperation(op); err != nil {
@@ -363,6 +365,9 @@ func (e *Extractor) processOperation(op contentstream.Operation) error {
 	return nil
 }
 
+// maxXObjectCalls bounds the number of Form XObject invocations per Extract.
+const maxXObjectCalls = 10000
+
 // invokeXObject handles the Do operator by processing Form XObjects.
 // It extracts text from nested Form XObjects, handling their own resources and graphics state.
 func (e *Extractor) invokeXObject(name string) error {
@@ -375,6 +380,14 @@ func (e *Extractor) invokeXObject(name string) error {
 	if e.xobjectDepth >= e.maxXObjectDepth {
 		return fmt.Errorf("XObject nesting too deep (max %d)", e.maxXObjectDepth)
 	}
+
+	// The depth limit alone does not bound the work: forms that invoke each
+	// other many times per level multiply at every level. Past the budget
+	// further invocations are skipped.
+	if e.xobjectCalls >= maxXObjectCalls {
+		return nil
+	}
+	e.xobjectCalls++
 
 	// Get XObject dictionary from resources
 	xobjectDictObj := e.resources.Get("XObject")
